@@ -65,7 +65,11 @@ template <class X> void run(Ctx& c, const Str& Bs, const Str& Rs, const char* ge
         }
         Str snapB = deep_snapshot<X>(B.u), snapR = deep_snapshot<X>(R.u);
         UriBox<X> D; memset(&D.u, 0xEE, sizeof D.u); int rc;
-        UriResolutionOptions opt = compat ? URI_RESOLVE_IDENTICAL_SCHEME_COMPAT : URI_RESOLVE_STRICTLY;
+        // the options word is a set of flags: other (so far meaningless) bits next to the compatibility bit change nothing
+        static const unsigned EXTRA[] = {0x2u, 0xFEu, 0x7FFFFFFEu, 0x100u};
+        unsigned optBits = (compat ? (unsigned)URI_RESOLVE_IDENTICAL_SCHEME_COMPAT : (unsigned)URI_RESOLVE_STRICTLY) | ((variant >= 2 && c.rng.chance(1, 6)) ? EXTRA[c.rng.below(4)] : 0u);
+        if (optBits > 1) c.count("options_with_extra_bits");
+        UriResolutionOptions opt = (UriResolutionOptions)optBits;
         c.stage((uint64_t)variant + 1);
         {
             LibScope ls;
